@@ -24,7 +24,7 @@ from ..gen import c05doc as G
 MANIFEST = dict(
     text="Proof: Lean theorems over a hand model (Rpft.Document) of from_dict/render of the whole export schema (flows, all node/router/action kinds incl. pass-through, _ui positions, groups, campaigns, triggers): render_load (load and render succeed and render(load d) ≈ d, ≈ defined as equality of explicit normal forms, for every valid document in re-join order), roundtrip_unordered (for ANY category/exit order the output is exactly shapeDoc(reorderDoc d)), render_load_idem (the second round trip EQUALS the first, without ordering hypotheses), legacy_trigger / legacy_trigger_doc (both keyword forms, no validity hypothesis), kernel-checked negative witnesses for the four hypotheses the code forces; tied to the code by exact comparison of the model's output with RapidProContainer.from_dict(d).render() on type-directed generated documents, a near-valid quirk stream, every fixture JSON and the Lean witnesses, and by tables regenerated from actions.py / routers.py / common.py on every run; the statement itself (≈ written independently in Python, second trip equal, input untouched incl. identity of nested containers, JSON-serialisable, both keyword forms) is evaluated on the real code for every case.",
     ref="§5 C05",
-    note="Trusts: Lean kernel (axioms audited each run), differential harness, generator and Driver JSON codec (self-tested: decode∘encode = id on every generated document), CPython dict order/deepcopy. Pass-through JSON is opaque canonical text in the model; _ui is modelled on node positions only (type/config of the rendered _ui are not modelled); uuid invention and contact-field key derivation are outside the model (model declines, counted). Idempotence is proved on Valid ∧ CatsWired ∧ UntypedFields documents (C05_idem_full, the unconditional statement, is kept visible and is only tested). Open findings F-C05-a (typed contact field renders builtin `type`), F-C05-b (top-level group attributes dropped), F-C05-c (default category not last → reorder), F-C05-d (exits re-emitted in category order) are exercised in a deterministic stream; the main generator avoids their triggers.",
+    note="Trusts: Lean kernel (axioms audited each run), differential harness, generator and Driver JSON codec (self-tested: decode∘encode = id on every generated document), CPython dict order/deepcopy. Pass-through JSON is opaque canonical text in the model; _ui is modelled on node positions only (type/config of the rendered _ui are not modelled); uuid invention and contact-field key derivation are outside the model (model declines, counted). Idempotence is proved on Valid ∧ CatsWired ∧ UntypedFields documents (C05_idem_full, the unconditional statement, is kept visible and is only tested). Open findings (F-C05-a, typed contact field rendering the builtin `type`, was fixed in /repo) F-C05-b (top-level group attributes dropped), F-C05-c (default category not last → reorder), F-C05-d (exits re-emitted in category order) are exercised in a deterministic stream; the main generator avoids their triggers.",
     technique="Lean 4 proof (explicit images of load, association-list invariants for the uuid dictionaries, reordering argument for the category re-join) + model/code differential run + direct oracle",
 )
 
